@@ -69,12 +69,13 @@ fn fragment(body: &[u8], frag: BodyFrag, max_delay_ns: u64, tape: &mut Tape) -> 
     let mut out = Vec::new();
     let mut i = 0;
     // at most ~1500 fragments per body: tiny fragments are for small bodies
-    let floor = body.len() / 1500 + 1;
+    let floor = (body.len() / 1500 + 1).min(256 * 1024);
     while i < body.len() {
         let rem = body.len() - i;
         let n = match frag {
-            BodyFrag::One => rem,
-            BodyFrag::Max(k) => rem.min(k.max(floor)),
+            // a real client hands out at most a read buffer at a time
+            BodyFrag::One => rem.min(256 * 1024),
+            BodyFrag::Max(k) => rem.min(k.max(floor)).min(256 * 1024),
             BodyFrag::Random(k) => (floor - 1 + 1 + tape.draw(rem.min(k.max(1)) as u32) as usize).min(rem),
         };
         let delay = if max_delay_ns == 0 { 0 } else { tape.draw(4) as u64 * (max_delay_ns / 4) };
@@ -108,6 +109,7 @@ impl Server {
             }
         };
         let mut end = BodyEnd::Eof;
+        let mut tail: Option<(usize, u64)> = None;
         if let Some(f) = &fault {
             simkit::try_with(|s| s.count("net-fault"));
         }
@@ -119,7 +121,14 @@ impl Server {
                 end = BodyEnd::Error("connection reset by peer".into());
             }
             Some(NetFault::EarlyEof(c)) => body.truncate(c),
-            Some(NetFault::Extra(k)) => body.extend(std::iter::repeat(0xEE).take(k)),
+            Some(NetFault::Extra(k)) => {
+                if k <= 4096 {
+                    body.extend(std::iter::repeat(0xEE).take(k));
+                } else {
+                    // produced lazily by the body: the harness never holds it
+                    tail = Some((65536, (k / 65536) as u64 + 1));
+                }
+            }
             Some(NetFault::ErrorPage) => {
                 status = 503;
                 let page = b"<html><body>503 Service Unavailable</body></html>\n";
@@ -154,6 +163,7 @@ impl Server {
             fragments,
             end,
             end_delay_ns: 0,
+            tail,
         }
     }
 }
